@@ -62,9 +62,13 @@ def check_rejection_result(out, res, batches, wl, n_samples, objective, spec, ca
     # ascending
     if not all(rd[i] <= rd[i + 1] for i in range(len(rd) - 1)):
         out.violate('ascending', '', call=call)
-    # row-identity (injective map returned rows -> consumed rows, identical in every output)
-    ckeys = collections.Counter(zip(*[sp.rows_key(cons[k]) for k in names]))
-    rkeys = list(zip(*[sp.rows_key(np.asarray(res.outputs[k])) for k in names]))
+    # row-identity (injective map returned rows -> consumed rows, identical in every output);
+    # the discrepancy is compared by value (an integer discrepancy is reported as float)
+    def keyed(k, arr):
+        arr = np.asarray(arr)
+        return sp.rows_key(arr.astype(np.float64) if k == dname else arr)
+    ckeys = collections.Counter(zip(*[keyed(k, cons[k]) for k in names]))
+    rkeys = list(zip(*[keyed(k, res.outputs[k]) for k in names]))
     bad = []
     seen = collections.Counter()
     for i, key in enumerate(rkeys):
@@ -78,8 +82,8 @@ def check_rejection_result(out, res, batches, wl, n_samples, objective, spec, ca
         per_out = {}
         i0 = bad[0]
         for k in names:
-            rk = sp.rows_key(np.asarray(res.outputs[k]))[i0]
-            per_out[k] = rk in set(sp.rows_key(cons[k]))
+            rk = keyed(k, res.outputs[k])[i0]
+            per_out[k] = rk in set(keyed(k, cons[k]))
         out.violate('row-identity', sig, call=call, bad_rows=bad[:10], n_samples=n_samples,
                     finite_acceptable=n_finite_ok, each_output_is_some_consumed_row=per_out)
     # best-n
